@@ -28,7 +28,7 @@ META = {
 }
 
 TEMPLATES = {
-    "lib": "{% macro lm(a) %}<{{ a }}|{{ x }}>{% endmacro %}{% set lv = 'v' ~ g %}",
+    "lib": "{% macro lm(a) %}<{{ a }}|{{ x }}>{% endmacro %}{% set lv = 'v' ~ g %}{% set ll = [1, 2] %}",
     "base": "B[{% block a %}ba{% endblock %}|{% block b %}bb{{ x }}{% endblock %}]",
     "imp": "{% import 'lib' as l %}{{ l.lm(x) }}{{ l.lv }}",
     "fromctx": "{% from 'lib' import lm with context %}{{ lm(x) }}",
@@ -46,6 +46,11 @@ TEMPLATES = {
     "set_ns_attr": "{% set ns = namespace(a=items) %}{% set ns.b %}v{% endset %}{% set ns.c = d %}{{ ns.b }}{{ ns.a|length }}",
     "ns_from_dict": "{% set ns = namespace(d) %}{% set ns.q = 1 %}{% set ns.k = 5 %}{{ ns.q }}{{ ns.k }}{{ d.k }}",
     "ae_block": "{% autoescape true %}{{ s }}{{ 1 // z }}{% endautoescape %}{% set v %}{{ s }}{% endset %}[{{ v }}]{{ s }}",
+    # attribute assignment through a name that no longer (or not on this path) holds a namespace: must raise, not write
+    "ns_rebound": "{% set ns = namespace() %}{% set ns.x = 1 %}{% set ns = d %}{% set ns.x = 2 %}{{ ns.x }}",
+    "ns_untaken": "{% set ns = d %}{% if z == 5 %}{% set ns.x = 1 %}{% endif %}{% set ns.x = 2 %}{{ ns.x }}",
+    # `|list` hands out a copy: appending to it changes neither the data, nor a global, nor a cached module's variable
+    "list_copy": "{% set a = items|list %}{% set _ = a.append(9) %}{% set b = gl|list %}{% set _ = b.append(9) %}{% import 'lib' as l %}{% set c = l.ll|list %}{% set _ = c.append(9) %}{{ a }}{{ b }}{{ c }}{{ l.ll }}",
     "libg": "{% macro gm() %}[{{ tg }}]{% endmacro %}{% set gv = 'v' ~ tg %}",
     "impg1": "{% import 'libg' as l %}{{ l.gm() }}{{ l.gv }}{{ tg }}",
     "impg2": "{% from 'libg' import gm, gv %}{{ gm() }}{{ gv }}{{ tg }}",
@@ -53,7 +58,7 @@ TEMPLATES = {
 }
 POOL = ["imp", "fromctx", "ns", "loopstate", "cycler", "filters", "child", "macro", "setattr", "tojson_indent", "tojson",
         "policies", "impg1", "impg2", "set_attr_of_data", "setblock_attr_of_data", "set_ns_attr",
-        "ns_from_dict", "ae_block", "ae_block@raise"]
+        "ns_from_dict", "ae_block", "ae_block@raise", "ns_rebound", "ns_untaken", "list_copy"]
 # templates loaded with template-level globals (same names, different values)
 TEMPLATE_GLOBALS = {"impg1": {"tg": "one"}, "impg2": {"tg": "two"}}
 
@@ -86,15 +91,18 @@ def make_env(async_=False, memo=False, autoescape=False):
         async_, autoescape = False, True
     from jinja2.bccache import BytecodeCache
 
+    mode = (bool(async_), bool(autoescape))
+
     class MemCache(BytecodeCache):
         """per-process compiled-code store so that warm-ups do not recompile (warm harnesses only)"""
 
+        # (keyed by the compile-relevant configuration as well: the three modes compile to different code)
         def load_bytecode(self, bucket):
-            if bucket.key in _BC:
-                bucket.bytecode_from_string(_BC[bucket.key])
+            if (mode, bucket.key) in _BC:
+                bucket.bytecode_from_string(_BC[mode, bucket.key])
 
         def dump_bytecode(self, bucket):
-            _BC[bucket.key] = bucket.bytecode_to_string()
+            _BC[mode, bucket.key] = bucket.bytecode_to_string()
 
     env = jinja2.Environment(loader=jinja2.DictLoader(dict(TEMPLATES)), enable_async=async_, autoescape=autoescape,
                              bytecode_cache=MemCache() if memo else None)
